@@ -105,7 +105,7 @@ impl ByteReader {
         ({
             let all = flat(old(self).inner@);
             let n = r->Ok_0 as int;
-            &&& n == (if all.len() >= old(dst)@.len() { old(dst)@.len() as int } else { all.len() as int })       // [C10.reader.fills-or-drains] a read returns the whole request, or -- only when the payloads run out -- everything that is left
+            &&& n == (if all.len() >= old(dst)@.len() { old(dst)@.len() as int } else { all.len() as int })       // [C10.reader.fills-or-drains] [C04.reader.chunked-read-total] [C15.reader.chunked-read-total] (and it RETURNS for every way the delivery was cut into frames and every request size: no index out of range -- the function's implicit obligations) a read returns the whole request, or -- only when the payloads run out -- everything that is left
             &&& final(dst)@.subrange(0, n) =~= all.subrange(0, n)                                                 // [C10.reader.concatenation] [C01.reader.concatenation] what is read is the concatenation of the delivery's frames' payloads, in order, wherever the frames were cut
             &&& flat(final(self).inner@) =~= all.skip(n)                                                          // [C10.reader.nothing-lost] [C01.reader.nothing-lost] [C20.reader.chunked-stream-consumes-what-it-returns] and exactly those bytes are consumed: the next read continues where this one stopped
         }),
